@@ -291,6 +291,7 @@ def rule_odometer(ctx, M, fn, pr, store_fns=None):
         return
     # increment by exactly 1 and reset to 0 (in the comparison's function or a sibling method of the iterator)
     incs, resets, others = [], [], []
+    inc_sites, fill_sites = [], []
     for sf in (store_fns or [fn]):
         spr = pr if sf is fn else P.Prov(sf)
         for l, lst in spr.stores.items():
@@ -302,6 +303,8 @@ def rule_odometer(ctx, M, fn, pr, store_fns=None):
                 v = spr.rvalue(rv) if "callterm" not in rv else None
                 if v and v[0] == "bin" and v[1] == "Add" and P.const_int(v[3]) is not None:
                     incs.append((sb, P.const_int(v[3])))
+                    bs_ = P.strip(base)
+                    inc_sites.append((sf, sb, P.strip(bs_[2][1]) if bs_[0] == "call" and len(bs_[2]) == 2 else None))
                 elif v and P.const_int(v) is not None:
                     resets.append((sb, P.const_int(v), sf))
                 else:
@@ -310,6 +313,7 @@ def rule_odometer(ctx, M, fn, pr, store_fns=None):
         for bi, t in fills:
             v = P.const_int(spr.operand(t["args"][1]))
             resets.append((bi, v, sf))
+            fill_sites.append((sf, bi, P.strip(spr.operand(t["args"][0]), calls=False)))
     bad = [i for i in incs if i[1] != 1] + [r for r in resets if r[1] != 0]
     if not incs or bad or others:
         ctx.violation(rule, f"{fn.path}|counter-update",
@@ -381,12 +385,84 @@ def rule_odometer(ctx, M, fn, pr, store_fns=None):
             hi_ok = hi_s[0] == "call" and hi_s[1].rsplit("::", 1)[-1] == "len" and P.strip(hi_s[2][0]) == counters
             if not (lo_ok and hi_ok):
                 order_problems.append(f"later counters are reset over {P.show(s2)[:60]}, not over (advanced player + 1)..len")
+    # (positive) after a counter is advanced, every later counter is reset on every path to a return:
+    # `for i in (x + 1)..len { c[i] = 0 }` or `c[x + 1..].fill(0)`, x being the advanced index
+    for (sf, sb, X) in inc_sites:
+        spr = pr if sf is fn else P.Prov(sf)
+        suffix = []
+        for lp2 in L.for_loops(sf, spr):
+            s2 = P.strip(lp2.chain()[0])
+            if s2[0] == "agg" and s2[1].endswith("Range::Range") and [c_.rsplit("::", 1)[-1] for c_ in lp2.chain()[1]] in ([], ["into_iter"]):
+                lo, hi = s2[2]
+                hi_s = P.strip(hi)
+                if lo[0] == "bin" and lo[1] == "Add" and P.const_int(lo[3]) == 1 and (X is None or P.strip(lo[2]) == X) and \
+                        hi_s[0] == "call" and hi_s[1].rsplit("::", 1)[-1] == "len" and P.strip(hi_s[2][0]) == counters:
+                    zero_stores = [b_ for (b_, v_, f3) in resets if f3 is sf and b_ in lp2.body and v_ == 0]
+                    if zero_stores and all(L.in_every_iteration(sf, lp2, b_) for b_ in zero_stores) and not early_exit_blocks(sf, lp2):
+                        suffix.append(lp2.header)
+        for (f3, bi, recv) in fill_sites:
+            if f3 is not sf:
+                continue
+            # <[usize]>::fill(index_mut(counters, RangeFrom { start: x + 1 }), 0)
+            r_ = recv
+            if r_[0] == "call" and r_[1].endswith("::index_mut") and len(r_[2]) == 2 and P.strip(r_[2][0]) == counters:
+                rg = P.strip(r_[2][1], calls=False)
+                if rg[0] == "agg" and rg[1].endswith("RangeFrom::RangeFrom") and len(rg[2]) == 1:
+                    st_ = P.strip(rg[2][0])
+                    if st_[0] == "bin" and st_[1] == "Add" and P.const_int(st_[3]) == 1 and (X is None or P.strip(st_[2]) == X):
+                        if P.const_int(spr.operand(sf.blocks[bi]["term"]["args"][1])) == 0:
+                            suffix.append(bi)
+        r_ = I.reachable_avoiding(sf, [], start=sb, removed_blocks=suffix)
+        if any(rb in r_ for rb in sf.cfg.return_blocks()):
+            order_problems.append("after a player's counter is advanced the later players' counters are not all reset to 0 "
+                                  "(`for i in advanced + 1..len` / `[advanced + 1..].fill(0)` on every path)")
+    # (positive) whenever the (turn, river) position is advanced, all counters restart from 0 on every path to a return
+    try:
+        plumb_ = M.plumbing()
+        pos_fields = {plumb_["turn_from"][1], plumb_["river_from"][1]}
+    except Exception:
+        pos_fields = set()
+    for sf in (store_fns or [fn]):
+        if sf is not fn and not any(f3 is sf for (f3, _b, _x) in inc_sites):
+            continue
+        spr = pr if sf is fn else P.Prov(sf)
+        whole = []
+        for (f3, bi, recv) in fill_sites:
+            if f3 is sf and (P.strip(recv) == counters or P.strip(recv, calls=False) == counters) and \
+                    P.const_int(spr.operand(sf.blocks[bi]["term"]["args"][1])) == 0:
+                whole.append(bi)
+        for lp2 in L.for_loops(sf, spr):
+            s2 = P.strip(lp2.chain()[0])
+            if s2[0] == "agg" and s2[1].endswith("Range::Range") and P.const_int(s2[2][0]) == 0:
+                hi_s = P.strip(s2[2][1])
+                if hi_s[0] == "call" and hi_s[1].rsplit("::", 1)[-1] == "len" and P.strip(hi_s[2][0]) == counters:
+                    zs = [b_ for (b_, v_, f3) in resets if f3 is sf and b_ in lp2.body and v_ == 0]
+                    if zs and all(L.in_every_iteration(sf, lp2, b_) for b_ in zs) and not early_exit_blocks(sf, lp2):
+                        whole.append(lp2.header)
+        pos_stores = []
+        for l, lst in spr.stores.items():
+            for (sb, si, pl, rv) in lst:
+                pj = pl["proj"]
+                if pl["l"] == 1 and len(pj) == 2 and pj[0] == "deref" and isinstance(pj[1], dict) and pj[1].get("f") in pos_fields:
+                    pos_stores.append(sb)
+        for sb in pos_stores:
+            r_ = I.reachable_avoiding(sf, [], start=sb, removed_blocks=whole)
+            dominated = any(sf.cfg.dominates(w_, sb) for w_ in whole)   # `fill(0)` written before the position update
+            if any(rb in r_ for rb in sf.cfg.return_blocks()) and not dominated:
+                order_problems.append("the (turn, river) position is advanced without restarting every player's counter from 0 "
+                                      "(`counters.fill(0)` on every path): the first combos of the next board are skipped")
+                break
     if order_problems:
         ctx.violation(rule, f"{fn.path}|odometer-order", "; ".join(order_problems) + ": combos of some players are skipped or repeated",
                       fn=fn.path, file=fn.file, line=fn.blocks[adv[0][0]]["line"], construct="odometer scan / reset")
         return
     ctx.ok(rule, {"bound": "idx + 1 < len", "increments": len(incs), "resets": len(resets), "scan": "last player first, stop at first hit",
                   "reset_range": "(advanced + 1)..len"}, sample=True)
+
+
+def early_exit_blocks(fn, lp):
+    from rules import runpass
+    return runpass.early_exits(fn, lp)
 
 
 def rule_odometer_any(ctx, M, deal):
